@@ -504,6 +504,14 @@ int ares_dup(ares_channel_t **dest, const ares_channel_t *src)
   (*dest)->sock_func_cb_data         = src->sock_func_cb_data;
   (*dest)->legacy_sock_funcs         = src->legacy_sock_funcs;
   (*dest)->legacy_sock_funcs_cb_data = src->legacy_sock_funcs_cb_data;
+  /* ares_set_socket_functions() installs internal adapters whose user data is
+   * the channel itself, they look up the legacy functions there.  The copy's
+   * adapters must work on the copy, not on the source channel (which may
+   * change its functions or be destroyed). */
+  if (src->legacy_sock_funcs != NULL &&
+      src->sock_func_cb_data == (const void *)src) {
+    (*dest)->sock_func_cb_data = *dest;
+  }
   (*dest)->server_state_cb           = src->server_state_cb;
   (*dest)->server_state_cb_data      = src->server_state_cb_data;
 
